@@ -9,7 +9,7 @@ use miette::{Diagnostic, LabeledSpan, NamedSource, SourceSpan};
 
 use crate::Error;
 use crate::Location;
-use crate::de_snipped::sanitize_terminal_snippet_preserve_len;
+use crate::de_snipped::{normalize_line_breaks, sanitize_terminal_snippet_preserve_len};
 #[cfg(any(feature = "garde", feature = "validator"))]
 use crate::location::Locations;
 #[cfg(feature = "garde")]
@@ -51,7 +51,10 @@ pub fn to_miette_report_with_formatter(
     file: &str,
     formatter: &dyn MessageFormatter,
 ) -> miette::Report {
-    let sanitized_source = sanitize_terminal_snippet_preserve_len(source.to_owned());
+    // miette splits the source at LF / CRLF. A lone CR is a YAML line break as well (and is
+    // counted in the lines of a `Location`): turn it into LF before the sanitizer blanks it.
+    let sanitized_source =
+        sanitize_terminal_snippet_preserve_len(normalize_line_breaks(source).into_owned());
     let src = Arc::new(NamedSource::new(file, sanitized_source));
     let diag = build_diagnostic(err.without_snippet(), src, formatter);
     miette::Report::new(diag)
